@@ -42,6 +42,46 @@ def run(c: Check):
             c.violation("C08:stress-capacity-exceeded",
                         "real processes: tasks running at the same instant hold %d > total %d" % (r["peak"], sc["total"]),
                         dict(scenario=sc, log=log, peak_at=r["peak_at"]))
+    if not c.replay or rk in ("twoexp", "leftexp"):
+        # real experiments: (a) two experiments of ONE process ask the same token name (equal / different totals,
+        # nested / one after the other); (b) an experiment is left by an exception / interrupt while its
+        # token-holding job still runs, then another process asks for the token
+        if c.replay:
+            scs = [dict(json.load(open(c.replay))["replay"]["scenario"])]
+        elif c.quick:
+            scs = [dict(kind="twoexp", totals=[2, 3], nested=True), dict(kind="leftexp", how="exception")]
+        else:
+            scs = [dict(kind="twoexp", totals=[2, 3], nested=True), dict(kind="twoexp", totals=[2, 2], nested=True),
+                   dict(kind="twoexp", totals=[3, 2], nested=False), dict(kind="twoexp", totals=[2, 2], nested=False),
+                   dict(kind="leftexp", how="exception"), dict(kind="leftexp", how="interrupt")]
+        for sc in scs:
+            sc["scratch"] = str(c.scratch())
+        rs = tc.run_batches("drive_c08.py", scs, c.scratch(), per=1, timeout=120)
+        for sc, r in zip(scs, rs):
+            sc.pop("scratch", None)
+            c.evaluations += 1
+            c.extra.setdefault("experiment_runs", []).append(dict(scenario=sc, result=r))
+            if r.get("error"):
+                c.count(sc["kind"] + ":no-verdict")
+                continue
+            c.count(sc["kind"] + ":ok")
+            if sc["kind"] == "twoexp":
+                for label in ("both", "first", "second"):
+                    o = r.get(label)
+                    if o and (o["running"] > o["total"] or o["token_files"] < o["running"]):
+                        c.violation("C08:capacity-exceeded:two-experiments-one-process",
+                                    "two experiments of one process asking the token `shared` with totals %s (%s): %d jobs "
+                                    "holding 1 each run under a total of %d, %d token files (same token object: %s)"
+                                    % (sc["totals"], "nested" if sc["nested"] else "one after the other", o["running"],
+                                       o["total"], o["token_files"], r.get("same_object")),
+                                    dict(scenario=sc, observed=r))
+            else:
+                if r.get("job_running") and r.get("job_running_after") and (not r["token_files"] or r["second_request_granted"]):
+                    c.violation("C08:token-released-while-job-runs:experiment-left",
+                                "an experiment was left (%s) while its job, holding the whole token, runs detached: token files "
+                                "%s, a request of another process was %s" % (sc.get("how"), r["token_files"],
+                                "granted" if r["second_request_granted"] else "refused"),
+                                dict(scenario=sc, observed=r))
     if not c.quick and not c.replay:
         # supporting: real processes, real observer/threads/locks, task-side weighted interval log
         runs = []
